@@ -1013,7 +1013,7 @@ class Interp:
     def builtin(self, name, args, kwargs, e, env, mod, depth):
         if name == "isinstance":
             cls = args[1]
-            return self.isinstance_(args[0], list(cls) if isinstance(cls, (tuple, list)) and not (cls and cls[0] in ("$exc", "$typing")) else [cls])
+            return self.isinstance_(args[0], list(cls) if isinstance(cls, (tuple, list)) and not (cls and cls[0] in ("$exc", "$typing", "$union")) else [cls])
         if name == "hasattr":
             try:
                 self.getattr(args[0], args[1], e, depth)
